@@ -88,7 +88,8 @@ RULE = ('pickle and HDF5 k-tables (1-20 g-points, weights >= 0 summing to 1, 1-3
         'optional CIA)}; twin-grid stream: all molecules on the same bin centres (constant-resolution pieces, R = 60..3000), one '
         'side held as float64(float32(.)), either side first, end points exactly shared or rounded too; contribution-list '
         'stream: 8 lists over {absorption, CIA, Rayleigh, flat Mie} in both families, 5 of them without the molecular '
-        'absorption, model() and every entry of model_contrib() run in both opacity modes; table kind in {degenerate (identical across g), generic}; opacity regime in {zero, thin, mid, '
+        'absorption, model() and every entry of model_contrib() run in both opacity modes; formula-name stream: one or every '
+        'molecule a species with lower-case letters in its formula (TiO, Na, FeH, ...), both containers; table kind in {degenerate (identical across g), generic}; opacity regime in {zero, thin, mid, '
         'saturated, mixed}; 1-30 layers, 1-8 wavenumbers, ngauss 1-6; distinct non-trivial = distinct (family, kind, '
         'ng, nlayers, regime, cia) with a column neither transparent nor saturated')
 ASSUMPTIONS = ['all k-tables of one run share the quadrature weights (the code takes them from the first active gas)',
@@ -246,6 +247,28 @@ def gen_case(rng, k, thorough=False, twin=None):
     return out
 
 
+# formulas with two-letter element symbols / lower-case letters: the name a k-table file advertises (file stem, sanitised)
+# and the name the loaded table carries must stay the formula as written for the gas to absorb in k-table mode too
+FORMULA_NAMES = ['TiO', 'Na', 'FeH', 'VO', 'SiO', 'HCN', 'K', 'MgH', 'AlO', 'CaH']
+
+
+def gen_formula_case(rng, k):
+    """quota of the formula-name stream: a main-stream case in which one molecule, or every molecule, is a
+    species whose formula has lower-case letters (TiO, Na, FeH ...), mixed with upper-case-only formulas; comparable
+    abundances, so that a gas dropped from the absorbers in one opacity mode shows in the spectrum"""
+    c = gen_case(rng, k, thorough=False)
+    old = list(c['tables'])
+    every = (k // 4) % 3 == 2
+    pick = [FORMULA_NAMES[(k + 3 * i) % len(FORMULA_NAMES)] for i in range(len(old))]
+    ren = {nm: (pick[i] if (every or i == (k // 12) % len(old)) else nm) for i, nm in enumerate(old)}
+    c['tables'] = {ren[nm]: t for nm, t in c['tables'].items()}
+    c['spec']['gases'] = {ren[nm]: float(10 ** rng.uniform(-4, -3)) for nm in c['spec']['gases']}
+    if c['spec'].get('deactive'):
+        c['spec']['deactive'] = [ren[nm] for nm in c['spec']['deactive']]
+    c['formula_names'] = 'every' if every or len(old) == 1 else 'one-of-%d' % len(old)
+    return c
+
+
 def xsec_tables(c, how):
     """cross-section tables on 'the same numbers': g-point 0 of a degenerate table, or the weight-averaged table"""
     w = np.asarray(c['weights'], float)
@@ -344,6 +367,8 @@ def judge(ctx, c, case, small, ok, ox, degenerate, kp=''):
                            'twin(single-precision copy of the same bin centres):%s-molecule:ends-%s'
                            % (c['twin'], c.get('twin_ends')) if c.get('twin') else 'shared'))
     ctx.bucket('ktable-container:' + str(c.get('kfmt', 'pickle')))
+    if c.get('formula_names'):
+        ctx.bucket('molecule-names:lower-case-letters(%s):%s:%s' % (c['formula_names'], c.get('kfmt', 'pickle'), fam))
     ctx.bucket('interpolation:' + str(c.get('interp') or 'linear'))
     for e_ in c.get('grid_ends') or []:
         ctx.bucket('table-grid-end:' + str(e_))
@@ -354,6 +379,12 @@ def predicates(ctx, c, case, ok, ox, degenerate, kp=''):
     fam = c['family']
     if not np.all(np.isfinite(ok['flux'])):
         ctx.violation(kp + 'nonfinite:' + fam, 'k-mode spectrum not finite on a valid input', case, dict(flux=ok['flux']))
+        return
+    if np.shape(ok['grid']) != np.shape(ox['grid']) or not C.close(ok['grid'], ox['grid'], rel=1e-12):
+        # the two spectra are not even on the same wavenumbers (e.g. a gas that absorbs in one opacity mode only and would
+        # have supplied the native grid)
+        ctx.violation(kp + 'grid-ktable-vs-xsec', 'the k-table run and the cross-section run on the same numbers return '
+                      'spectra on different wavenumber grids', case, dict(k=ok['grid'], xsec=ox['grid']))
         return
     if fam == 'transmission':
         tk, tx = ok['tau'], ox['tau']
@@ -855,6 +886,13 @@ def run(ctx):
         for k in range(ctx.n(48, 960)):
             eval_subset(ctx, gen_subset_case(ctx.rng, k), scratch)
         malformed(ctx, scratch)
+        # (round-7 stream, after everything else: earlier draws stay as they were) molecules whose formula has lower-case
+        # letters, in both containers and both families: the same numbers as k-tables and as cross-sections
+        for k in range(ctx.n(32, 480)):
+            c = gen_formula_case(ctx.rng, k)
+            if c['regime'] != 'zero':
+                c['kfmt'] = ['pickle', 'hdf5'][(k // 2) % 2]
+                eval_case(ctx, c, scratch)
     finally:
         shutil.rmtree(scratch, ignore_errors=True)
 
